@@ -18,7 +18,15 @@
                        than the loop's root), and
      MachineC06S.WI   (context ids of a task are distinct, the suspended continuations / the running body are well
                        nested with the task's open list).
-   The new transitions (Let (FTask q) / Sync -> MValue -> MWaitHead ..., MDeliver into FValue) push and pop no layer. *)
+   The new transitions (Let (FTask q) / Sync -> MValue -> MWaitHead ..., MDeliver into FValue) push and pop no layer.
+
+   Contents: the per-mode lemmas vs_M* / vls_step / vls_run (invariant VLS = DLS /\ WI /\ vars_ok); the theorems
+   contexts_nest_lifo_stree, saved_values_stree, layers_are_the_active_contexts_stree,
+   reads_see_enclosing_overrides_stree, reads_innermost_stree, values_restored_stree (end + outermost flushes),
+   values_at_flush_stree (every flush); the demo c07s_demo with c07s_demo_runs; the refutation
+   values_restored_at_every_flush_stree_is_false; and the 'owners await' clause: relation [awaits] (dependency links and
+   synchronous-call links), invariant AWc (MachineC07.AWs per segment of the stack, [awl] along the FValue frames),
+   aws_M* / aws_step / aws_run, layer_owners_await_stree. *)
 From Asynq Require Import Machine Seq proofs.ProgProofs proofs.MachineFrame proofs.MachineC05 proofs.MachineC08
      proofs.MachineC01 proofs.MachineC01S proofs.MachineDFS proofs.MachineC04 proofs.MachineC07 proofs.MachineC06T
      proofs.MachineDFSS proofs.MachineC06S proofs.MachineC04S.
@@ -763,3 +771,493 @@ Proof.
     by (apply no_unwind_b_ok; vm_compute; reflexivity).
   specialize (H Hn ltac:(vm_compute; reflexivity) 0%Z). vm_compute in H. discriminate H.
 Qed.
+
+(* ------------------------------------------------------------------ the owners of the lower layers await the running task *)
+(* With synchronous calls "u awaits v" has two kinds of links: v is in the dependency list of an uncompleted task
+   (the task yielded it), or a caller w is suspended in value() on r (frames ... FWait r :: FValue w k ...: the
+   synchronous call of r by w).  The scheduler's stack decomposes into the segments of the wait_for levels; inside
+   each segment the two facts of MachineC07 (AWs: every entry was pushed as a dependency of the nearest grey entry
+   below it; an active entry that is not on top is grey) hold as for a stack of its own; the bottom of a segment is the
+   root the level waits for, which the caller on top of the segment below called synchronously. *)
+Inductive awaits (s : st) (fr : list frame) : fid -> fid -> Prop :=
+| aws_refl u : awaits s fr u u
+| aws_dep u w tk v : awaits s fr u w -> get w s = Some (mkFut None (KTask tk)) -> In v (tk_deps tk) -> awaits s fr u v
+| aws_call u w k r pre post : awaits s fr u w -> fr = pre ++ FWait r :: FValue w k :: post -> awaits s fr u r.
+
+Lemma awaits_trans s fr u v w : awaits s fr u v -> awaits s fr v w -> awaits s fr u w.
+Proof.
+  intros H1 H2. induction H2 as [v|v w tk z H2 IH Hg Hz|v w k r pre post H2 IH E]; [exact H1| |].
+  - apply (aws_dep s fr u w tk z (IH H1) Hg Hz).
+  - apply (aws_call s fr u w k r pre post (IH H1) E).
+Qed.
+
+Lemma reach_awaits s s' fr u v : heap s = heap s' -> reach s' u v -> awaits s fr u v.
+Proof.
+  intros Hh H. induction H as [|y tk z H IH Hg Hz]; [apply aws_refl|].
+  apply (aws_dep s fr u y tk z IH); [|exact Hz]. unfold get in *. rewrite Hh. exact Hg.
+Qed.
+
+Definition usame (s s' : st) (h : fid) : Prop :=
+  forall tk, get h s' = Some (mkFut None (KTask tk)) <-> get h s = Some (mkFut None (KTask tk)).
+
+Lemma usame_eq s s' h : get h s' = get h s -> usame s s' h.
+Proof. intros E tk. rewrite E. reflexivity. Qed.
+
+Lemma usame_tbc s s' h : tbc s s' -> usame s s' h.
+Proof. intros (TB & UF & _) tk. split; [apply TB|apply UF]. Qed.
+
+Lemma aw_subI s s' pre : tasks s = pre ++ tasks s' -> (forall h, In h (tl (tasks s')) -> usame s s' h) -> AWs s -> AWs s'.
+Proof.
+  intros Ht Hg [Hp Ha]. split.
+  - intros above y below E Hb.
+    assert (E2 : tasks s = (pre ++ above) ++ y :: below) by (rewrite Ht, E, app_assoc; reflexivity).
+    destruct (Hp _ _ _ E2 Hb) as (b1 & w & b2 & tk & Eb & Hw & Hds & Hy & Hb1).
+    assert (Hin : forall v, In v below -> usame s s' v) by (intros v Hv; apply Hg; apply (in_tl_below _ _ _ _ _ E Hv)).
+    exists b1, w, b2, tk. split; [exact Eb|].
+    split; [apply (proj2 (Hin w ltac:(rewrite Eb; apply in_or_app; right; left; reflexivity) tk)); exact Hw|].
+    split; [exact Hds|]. split; [exact Hy|]. intros v Hv (tkv & Hgv & Hdv). apply (Hb1 v Hv). exists tkv. split; [|exact Hdv].
+    apply (proj1 (Hin v ltac:(rewrite Eb; apply in_or_app; left; exact Hv) tkv)). exact Hgv.
+  - intros above u below tk E Hab Hgu Hc.
+    assert (E2 : tasks s = (pre ++ above) ++ u :: below) by (rewrite Ht, E, app_assoc; reflexivity).
+    apply (proj1 (Hg u (in_tl_nontop _ _ _ _ E Hab) tk)) in Hgu.
+    apply (Ha _ _ _ tk E2); [|exact Hgu|exact Hc]. destruct pre; [exact Hab|discriminate].
+Qed.
+
+Definition bottom (r : fid) (seg : list fid) : Prop := exists above, seg = above ++ [r].
+
+Lemma bottom_tl r x seg : bottom r (x :: seg) -> seg = [] \/ bottom r seg.
+Proof.
+  intros (above & E). destruct above as [|a above]; cbn in E; inversion E; [left; reflexivity|right; exists above; reflexivity].
+Qed.
+
+Lemma bottom_push r l seg : bottom r seg -> bottom r (l ++ seg).
+Proof. intros (above & ->). exists (l ++ above). rewrite app_assoc. reflexivity. Qed.
+
+(* the levels suspended in value() *)
+Inductive awl (s : st) : list fid -> list frame -> Prop :=
+| awl_top : awl s [] [FTop]
+| awl_val t k old i r vs rest below :
+    length below = i -> AWs (with_tasks s (t :: rest)) -> bottom r (t :: rest) -> awl s below vs ->
+    awl s ((t :: rest) ++ below) (FValue t k :: FCont t old :: FExec i :: FWait r :: vs).
+
+Lemma awl_same s s' ts fr : awl s ts fr -> (forall h, In h ts -> usame s s' h) -> awl s' ts fr.
+Proof.
+  intros H. induction H as [|t k old i r vs rest below Hlen HA Hb Hl IH]; intros Hu; [apply awl_top|].
+  apply awl_val; [exact Hlen| |exact Hb|].
+  - apply (aw_subI (with_tasks s (t :: rest)) _ []); [reflexivity| |exact HA].
+    cbn [tasks with_tasks tl]. intros h Hh. apply Hu. right. apply in_or_app. left. exact Hh.
+  - apply IH. intros h Hh. apply Hu. apply in_or_app. right. exact Hh.
+Qed.
+
+(* the entry of the top t of the innermost segment changes, new entries may appear *)
+Lemma aw_level_keep s s2 t rest below vs :
+  NoDup ((t :: rest) ++ below) -> (forall h, h <> t -> In h (rest ++ below) -> usame s s2 h) ->
+  AWs (with_tasks s (t :: rest)) -> awl s below vs -> AWs (with_tasks s2 (t :: rest)) /\ awl s2 below vs.
+Proof.
+  intros Hnd Hu HA HL. cbn [app] in Hnd. inversion Hnd as [|a l Hnt Hnd']; subst.
+  split.
+  - apply (aw_subI (with_tasks s (t :: rest)) _ []); [reflexivity| |exact HA].
+    cbn [tasks with_tasks tl]. intros h Hh. apply Hu; [intros ->; apply Hnt; apply in_or_app; left; exact Hh|apply in_or_app; left; exact Hh].
+  - apply (awl_same s s2 _ _ HL). intros h Hh. apply Hu; [intros ->; apply Hnt; apply in_or_app; right; exact Hh|apply in_or_app; right; exact Hh].
+Qed.
+
+Definition AWm (m : mode) (fr : list frame) (s : st) : Prop :=
+  match m with
+  | MValue _ | MDeliver _ => awl s (tasks s) fr
+  | MWaitHead | MAfterExec => exists r vs, fr = FWait r :: vs /\ awl s (tasks s) vs
+  | MExecLoop => exists i r vs seg below, fr = FExec i :: FWait r :: vs /\ tasks s = seg ++ below /\ length below = i /\
+      AWs (with_tasks s seg) /\ (seg = [] \/ bottom r seg) /\ awl s below vs
+  | MResume t | MRun t _ => exists old i r vs rest below, fr = FCont t old :: FExec i :: FWait r :: vs /\
+      tasks s = (t :: rest) ++ below /\ length below = i /\
+      AWs (with_tasks s (t :: rest)) /\ bottom r (t :: rest) /\ awl s below vs
+  | MContRet => exists t old i r vs rest below, fr = FCont t old :: FExec i :: FWait r :: vs /\
+      tasks s = (t :: rest) ++ below /\ length below = i /\
+      AWs (with_tasks s (t :: rest)) /\ bottom r (t :: rest) /\ awl s below vs
+  | MUnwind _ | MDone _ | MStuck => True
+  end.
+
+Definition AWc (c : cfg) : Prop := AWm (c_mode c) (c_frames c) (c_st c).
+
+Section AwaitingS.
+  Variable P : params.
+  Hypothesis HP : pointwise P.
+  Variable res : outcome.
+
+  Lemma aws_MValue spec S h fr s : DLS res spec S (mkC (MValue h) fr s) -> AWc (mkC (MValue h) fr s) ->
+    AWc (step P (mkC (MValue h) fr s)).
+  Proof.
+    intros (((_ & _ & Ht) & _) & _) HA. cbn [c_mode c_frames c_st mode_ok] in Ht. unfold AWc in *. cbn [c_mode c_frames c_st AWm] in HA.
+    cbn [step c_mode c_frames c_st].
+    destruct (computed h s); [exact HA|]. destruct Ht as (out & tk & Hg). rewrite Hg. cbn [c_mode c_frames c_st AWm].
+    exists h, fr. split; [reflexivity|exact HA].
+  Qed.
+
+  Lemma aws_leave o vs s : awl s (tasks s) vs -> AWc (mkC (MDeliver o) vs (drop_sb s)).
+  Proof.
+    intros HL. unfold AWc. cbn [c_mode c_frames c_st AWm]. rewrite tasks_drop_sb.
+    apply (awl_same s _ _ _ HL). intros h _. apply usame_eq. apply get_drop_sb.
+  Qed.
+
+  Lemma aws_MWaitHead fr s : AWc (mkC MWaitHead fr s) -> AWc (step P (mkC MWaitHead fr s)).
+  Proof.
+    intros HA. unfold AWc in HA. cbn [c_mode c_frames c_st AWm] in HA. destruct HA as (r & vs & -> & HL).
+    cbn [step c_mode c_frames c_st]. destruct (computed r s); [apply aws_leave; exact HL|].
+    unfold AWc. cbn [c_mode c_frames c_st AWm]. exists (length (tasks s)), r, vs, [r], (tasks s).
+    split; [reflexivity|]. split; [reflexivity|]. split; [reflexivity|].
+    split; [apply aw_short; cbn; lia|]. split; [right; exists []; reflexivity|].
+    apply (awl_same s _ _ _ HL). intros h _. apply usame_eq. reflexivity.
+  Qed.
+
+  Lemma aws_MAfterExec spec S fr s : DLS res spec S (mkC MAfterExec fr s) -> AWc (mkC MAfterExec fr s) ->
+    AWc (step P (mkC MAfterExec fr s)).
+  Proof.
+    intros (((_ & HS & _) & _) & _) HA. cbn [c_mode c_frames c_st] in HS.
+    unfold AWc in HA. cbn [c_mode c_frames c_st AWm] in HA. destruct HA as (r & vs & -> & HL).
+    cbn [step c_mode c_frames c_st]. destruct (computed r s); [apply aws_leave; exact HL|].
+    unfold AWc. cbn [c_mode c_frames c_st AWm]. exists r, vs. split; [reflexivity|].
+    rewrite (tasks_of_regs _ _ (regs_continue_with_batch P s)).
+    apply (awl_same s _ _ _ HL). intros h _. apply usame_tbc. apply (tbc_cwb spec _ P s HP HS).
+  Qed.
+
+  Lemma aws_MDeliver o fr s : AWc (mkC (MDeliver o) fr s) -> AWc (step P (mkC (MDeliver o) fr s)).
+  Proof.
+    intros HA. unfold AWc in HA. cbn [c_mode c_frames c_st AWm] in HA.
+    inversion HA as [E1 E2|t k old i r vs rest below Hlen HAs Hb HL E1 E2]; subst; cbn [step c_mode c_frames c_st]; [exact I|].
+    unfold AWc. cbn [c_mode c_frames c_st AWm]. exists old, (length below), r, vs, rest, below.
+    split; [reflexivity|]. split; [symmetry; assumption|]. split; [reflexivity|].
+    split; [apply (aw_subI (with_tasks s (t :: rest)) _ []); [reflexivity|intros h _; apply usame_eq; reflexivity|exact HAs]|].
+    split; [exact Hb|]. apply (awl_same s _ _ _ HL). intros h _. apply usame_eq. reflexivity.
+  Qed.
+
+  Lemma aws_MExecLoop spec S fr s : DLS res spec S (mkC MExecLoop fr s) -> AWc (mkC MExecLoop fr s) ->
+    AWc (step P (mkC MExecLoop fr s)).
+  Proof.
+    intros HD HA. pose proof (dls_facts _ _ _ _ HD) as (Hnodup & _ & Hact & Hdc). cbn [c_mode c_st] in Hnodup, Hact, Hdc.
+    destruct HD as (((Hf & HS & _) & _) & _ & HW). cbn [c_mode c_frames c_st modeW] in *.
+    destruct HW as (i0 & r0 & vs0 & seg0 & below0 & E0 & Hts0 & _ & HPk & _).
+    destruct Hf as (i' & r' & vs' & Efr & Hlv).
+    unfold AWc in HA. cbn [c_mode c_frames c_st AWm] in HA.
+    destruct HA as (i & r & vs & seg & below & -> & Hts & Hlen & HAs & Hbot & HL).
+    injection E0 as <- <- <-. injection Efr as <- <- <-. cbn [R_of fvals] in HS.
+    cbn [step c_mode c_frames c_st].
+    assert (Hexit : seg = [] -> AWc (mkC MAfterExec (FWait r :: vs) s)).
+    { intros ->. unfold AWc. cbn [c_mode c_frames c_st AWm]. exists r, vs. split; [reflexivity|]. rewrite Hts. exact HL. }
+    destruct (Nat.leb (length (tasks s)) i) eqn:Hleb.
+    { apply Hexit. apply Nat.leb_le in Hleb. rewrite Hts, app_length, Hlen in Hleb. destruct seg; [reflexivity|cbn in Hleb; lia]. }
+    destruct (Z.ltb _ _); [exact I|].
+    destruct (tasks s) as [|x ts] eqn:Htk.
+    { apply Hexit. destruct seg; [reflexivity|discriminate]. }
+    assert (Hseg : exists seg', seg = x :: seg' /\ ts = seg' ++ below).
+    { destruct seg as [|y seg'].
+      - cbn [app] in Hts. apply Nat.leb_gt in Hleb. rewrite Hts in Hleb. lia.
+      - cbn [app] in Hts. inversion Hts. exists seg'. split; reflexivity. }
+    destruct Hseg as (seg' & -> & ->). clear Hts.
+    assert (Hxr : (fnum r <= fnum x)%Z).
+    { apply (proj1 Hlv). apply hi_top. apply Nat.leb_gt in Hleb. cbn [length] in Hleb. lia. }
+    assert (HxR : ~ In x (fvals vs)).
+    { intros Hin. pose proof (wt_ok_fvals _ _ _ _ _ (proj2 Hlv) x Hin). lia. }
+    assert (Hnd : ~ In x (seg' ++ below)) by (inversion Hnodup; assumption).
+    destruct Hbot as [Hbot|Hbot]; [discriminate|].
+    assert (Hpop : forall s2, tasks s2 = x :: seg' ++ below -> (forall h, h <> x -> get h s2 = get h s) ->
+               AWc (mkC MExecLoop (FExec i :: FWait r :: vs) (pop_task s2))).
+    { intros s2 Ht2 Hoth. unfold AWc. cbn [c_mode c_frames c_st AWm]. exists i, r, vs, seg', below.
+      split; [reflexivity|]. split; [unfold pop_task; cbn [tasks with_tasks]; rewrite Ht2; reflexivity|]. split; [exact Hlen|].
+      split; [|split; [apply (bottom_tl r x seg' Hbot)|]].
+      - apply (aw_subI (with_tasks s (x :: seg')) _ [x]); [reflexivity| |exact HAs].
+        cbn [tasks with_tasks]. intros h Hh. apply usame_eq. change (get h (pop_task s2)) with (get h s2). apply Hoth.
+        intros ->. apply Hnd. apply in_or_app. left. apply in_tl. exact Hh.
+      - apply (awl_same s _ _ _ HL). intros h Hh. apply usame_eq. change (get h (pop_task s2)) with (get h s2). apply Hoth.
+        intros ->. apply Hnd. apply in_or_app. right. exact Hh. }
+    destruct (computed x s) eqn:Hcx; [apply (Hpop s); auto|].
+    destruct (get x s) as [[out [tk|kind idx key a|o'|]]|] eqn:Hg.
+    - assert (out = None) as -> by (unfold computed in Hcx; rewrite Hg in Hcx; cbn in Hcx; destruct out; [discriminate|reflexivity]).
+      pose proof (SI_plain _ _ _ _ _ _ HS Hg) as Hp.
+      destruct (is_blocked tk s) eqn:Hb.
+      + destruct (tk_ds tk) eqn:Hds.
+        * pose proof (set_task_upd s x None tk (tk_set_ds tk false) Hg) as U1. pose proof U1 as (G1 & _).
+          pose proof (pause_entryP _ x None (tk_set_ds tk false) Hp G1) as U2.
+          pose proof (upd_entry_trans _ _ _ _ _ _ U1 U2) as U.
+          apply Hpop.
+          -- rewrite (tasks_of_regs s); [exact Htk|]. rewrite regs_pause_contexts, regs_set_task. reflexivity.
+          -- destruct U as (_ & B & _). exact B.
+        * pose proof (set_task_upd s x None tk (tk_set_ds tk true) Hg) as U1. pose proof U1 as (G1 & _).
+          pose proof (resume_entryP _ x None (tk_set_ds tk true) Hp G1) as U2.
+          pose proof (upd_entry_trans _ _ _ _ _ _ U1 U2) as U.
+          set (s2 := resume_contexts x (set_task x (tk_set_ds tk true) s)) in *.
+          set (tk' := tk_with_ctxs (tk_set_ds tk true) (tk_ctxs (tk_set_ds tk true)) true) in *.
+          pose proof (computed_upd_none s s2 x tk tk' Hg U) as Hcomp.
+          assert (Hgt : get_task x s2 = Some tk') by (unfold get_task; destruct U as (A & _); rewrite A; reflexivity).
+          rewrite Hgt. change (tk_deps tk') with (tk_deps tk).
+          assert (Ht2 : tasks s2 = x :: seg' ++ below).
+          { rewrite (tasks_of_regs s); [exact Htk|]. unfold s2. rewrite regs_resume_contexts, regs_set_task. reflexivity. }
+          set (todo := filter (fun d => negb (computed d s2)) (tk_deps tk)).
+          assert (Hoth : forall h, h <> x -> get h s2 = get h s) by (destruct U as (_ & B & _); exact B).
+          unfold AWc. cbn [c_mode c_frames c_st AWm]. exists i, r, vs, (rev todo ++ x :: seg'), below.
+          split; [reflexivity|]. split; [cbn [tasks with_tasks]; rewrite Ht2, <- app_assoc; reflexivity|]. split; [exact Hlen|].
+          split; [|split; [right; apply bottom_push; exact Hbot|]].
+          -- assert (Hns : ~ In x seg') by (intros H; apply Hnd; apply in_or_app; left; exact H).
+             apply (aw_push (with_tasks s (x :: seg')) _ x seg' tk tk' todo HAs eq_refl Hns).
+             ++ cbn. change (get x (with_tasks ?z ?l)) with (get x z). destruct U as (A & _). exact A.
+             ++ reflexivity.
+             ++ reflexivity.
+             ++ intros h N. apply (Hoth h N).
+             ++ reflexivity.
+             ++ intros d Hd. apply filter_In in Hd as [Hd1 Hd2]. apply negb_true_iff in Hd2. rewrite Hcomp in Hd2.
+                assert (HSx : ~ S x) by (intros HSx; apply (pw_off _ _ _ _ _ _ _ HPk x HSx); rewrite <- Hts0; left; reflexivity).
+                destruct (pw_white _ _ _ _ _ _ _ HPk x tk I Hg Hds HxR HSx d Hd1 Hd2) as [_ Hnin]. rewrite <- Hts0 in Hnin.
+                split; [exact Hd1|]. split; [intros ->; apply Hnin; left; reflexivity|].
+                intros tkd Hgd. change (get d (with_tasks s ?l)) with (get d s) in Hgd.
+                split; [destruct (tk_ds tkd) eqn:E; [exfalso; apply Hnin; apply (Hact d tkd Hgd); apply (Hdc d tkd Hgd E)|reflexivity]|].
+                destruct (tk_cact tkd) eqn:E; [exfalso; apply Hnin; apply (Hact d tkd Hgd E)|reflexivity].
+          -- apply (awl_same s _ _ _ HL). intros h Hh. apply usame_eq. change (get h (with_tasks s2 ?l)) with (get h s2). apply Hoth.
+             intros ->. apply Hnd. apply in_or_app. right. exact Hh.
+      + rewrite (computed_resume_contextsS spec _ s x HS x), Hcx.
+        pose proof (resume_entryP s x None tk Hp Hg) as U.
+        assert (Hoth : forall h, h <> x -> get h (resume_contexts x s) = get h s) by (destruct U as (_ & B & _); exact B).
+        unfold AWc. cbn [c_mode c_frames c_st AWm]. exists (active (resume_contexts x s)), i, r, vs, seg', below.
+        split; [reflexivity|]. split; [cbn [tasks with_active]; rewrite (tasks_of_regs _ _ (regs_resume_contexts x s)); exact Htk|].
+        split; [exact Hlen|].
+        destruct (aw_level_keep s (with_active (resume_contexts x s) (Some x)) x seg' below vs) as (X & Y);
+          [exact Hnodup| |exact HAs|exact HL|split; [exact X|split; [exact Hbot|exact Y]]].
+        intros h N _. apply usame_eq. apply (Hoth h N).
+    - assert (Hh : heap (schedule_batch (kind, idx) s) = heap s) by (unfold schedule_batch; destruct (b_done _); [reflexivity|]; destruct (existsb _ _); reflexivity).
+      apply Hpop; [rewrite (tasks_of_regs s); [exact Htk|apply regs_schedule_batch]|]. intros h _. unfold get. rewrite Hh. reflexivity.
+    - apply Hpop; [exact Htk|]. intros h N. apply get_put_other. exact N.
+    - apply (Hpop s); auto.
+    - apply (Hpop s); auto.
+  Qed.
+
+  Lemma aws_MResume spec S t fr s : DLS res spec S (mkC (MResume t) fr s) -> AWc (mkC (MResume t) fr s) ->
+    AWc (step P (mkC (MResume t) fr s)).
+  Proof.
+    intros HD HA. pose proof (dls_facts _ _ _ _ HD) as (Hnodup & _ & _ & _). cbn [c_mode c_st] in Hnodup.
+    destruct HD as (((Hf & HS & (tk & Hg & Hcomp)) & _) & _). cbn [c_mode c_frames c_st] in *.
+    destruct Hf as (old' & i' & r' & vs' & Efr & Hrt & Hlv).
+    unfold AWc in HA. cbn [c_mode c_frames c_st AWm] in HA.
+    destruct HA as (old & i & r & vs & rest & below & -> & Hts & Hlen & HAs & Hbot & HL).
+    injection Efr as <- <- <- <-. cbn [R_of fvals] in HS.
+    assert (HtR : ~ In t (fvals vs)).
+    { intros Hin. pose proof (wt_ok_fvals _ _ _ _ _ (proj2 Hlv) t Hin). lia. }
+    cbn [step c_mode c_frames c_st]. unfold get_task. rewrite Hg.
+    destruct (SI_entry _ _ _ _ _ HS Hg) as (_ & ot & Hst & _ & Hp & Hd & Hk). cbn in Hp, Hd, Hk.
+    destruct (Hk eq_refl HtR) as (k & K1 & _). rewrite K1.
+    set (tk1 := mkTask (Some k) YNone (if p_keep P then tk_deps tk else []) (tk_ctxs tk) (tk_cact tk) (tk_ds tk) (tk_iter tk + 1) (tk_next tk)).
+    set (s2 := emit (EvStep t (tk_iter tk) (unwrap (look s) (tk_last tk))) (set_task t tk1 s)).
+    assert (U : upd_entry s s2 t (mkFut None (KTask tk1))).
+    { eapply upd_entry_view; [apply (set_task_upd s t None tk tk1 Hg)|reflexivity|reflexivity|reflexivity]. }
+    assert (Htk : tasks s2 = tasks s) by (apply tasks_of_regs; unfold s2; rewrite regs_emit, regs_set_task; reflexivity).
+    unfold AWc. cbn [c_mode c_frames c_st AWm]. exists old, i, r, vs, rest, below.
+    split; [reflexivity|]. split; [rewrite Htk; exact Hts|]. split; [exact Hlen|].
+    rewrite Hts in Hnodup.
+    destruct (aw_level_keep s s2 t rest below vs Hnodup) as (X & Y); [|exact HAs|exact HL|split; [exact X|split; [exact Hbot|exact Y]]].
+    intros h N _. apply usame_eq. destruct U as (_ & B & _). apply (B h N).
+  Qed.
+
+  Lemma aws_MContRet spec S fr s : DLS res spec S (mkC MContRet fr s) -> AWc (mkC MContRet fr s) ->
+    AWc (step P (mkC MContRet fr s)).
+  Proof.
+    intros HD HA. pose proof (dls_facts _ _ _ _ HD) as (Hnodup & _ & _ & _). cbn [c_mode c_st] in Hnodup.
+    unfold AWc in HA. cbn [c_mode c_frames c_st AWm] in HA.
+    destruct HA as (t & old & i & r & vs & rest & below & -> & Hts & Hlen & HAs & Hbot & HL).
+    rewrite Hts in Hnodup.
+    cbn [step c_mode c_frames c_st].
+    set (s1 := with_active s old). unfold get_task. change (get t s1) with (get t s).
+    assert (Hgen : forall s2, tasks s2 = tasks s -> (forall h, h <> t -> get h s2 = get h s) ->
+              AWc (mkC MExecLoop (FExec i :: FWait r :: vs) s2)).
+    { intros s2 Ht2 Hoth. unfold AWc. cbn [c_mode c_frames c_st AWm]. exists i, r, vs, (t :: rest), below.
+      split; [reflexivity|]. split; [rewrite Ht2; exact Hts|]. split; [exact Hlen|].
+      destruct (aw_level_keep s s2 t rest below vs Hnodup) as (X & Y); [|exact HAs|exact HL|split; [exact X|split; [right; exact Hbot|exact Y]]].
+      intros h N _. apply usame_eq. apply (Hoth h N). }
+    destruct (get t s) as [[out [tk| | |]]|] eqn:Hg; try (apply Hgen; [reflexivity|intros h _; reflexivity]).
+    pose proof (set_task_upd s1 t out tk (tk_set_ds tk false) Hg) as U.
+    apply Hgen; [apply (tasks_of_regs s1); apply regs_set_task|]. intros h N. destruct U as (_ & B & _). rewrite (B h N). reflexivity.
+  Qed.
+
+  Lemma aws_MRun spec S t p fr s : DLS res spec S (mkC (MRun t p) fr s) -> AWc (mkC (MRun t p) fr s) ->
+    AWc (step P (mkC (MRun t p) fr s)).
+  Proof.
+    intros HD HA. pose proof (dls_facts _ _ _ _ HD) as (Hnodup & Halloc & _ & _). cbn [c_mode c_st] in Hnodup, Halloc.
+    destruct HD as (((Hf & HS & Hm) & HK) & _). cbn [c_mode c_frames c_st] in *.
+    destruct Hf as (old' & i' & r' & vs' & Efr & Hrt & Hlv).
+    unfold AWc in HA. cbn [c_mode c_frames c_st AWm] in HA.
+    destruct HA as (old & i & r & vs & rest & below & -> & Hts & Hlen & HAs & Hbot & HL).
+    injection Efr as <- <- <- <-. cbn [R_of fvals] in HS.
+    unfold stackC in HK. cbn [c_mode c_frames c_st stackS] in HK.
+    destruct HK as (old' & i' & r' & vs' & rest0 & below0 & Efr & _ & _ & _ & _ & Hown).
+    destruct (Hown t (or_introl eq_refl)) as (tk & Hg & Hcact). clear Hown Efr.
+    cbn [step c_mode c_frames c_st].
+    destruct Hm as [(Htree & Hst)|(h & k & oh & -> & Hk & Hsh & Hst & Hth & Hih)].
+    2:{ unfold AWc. cbn [c_mode c_frames c_st AWm]. rewrite Hts. apply awl_val; assumption. }
+    pose proof Hnodup as Hnodup'. rewrite Hts in Hnodup'.
+    (* the entry of t is replaced, new entries may appear *)
+    assert (Hgen : forall s2, tasks s2 = tasks s -> (forall h, h <> t -> get h s <> None -> get h s2 = get h s) ->
+              AWs (with_tasks s2 (t :: rest)) /\ awl s2 below vs).
+    { intros s2 Ht2 Hoth. apply (aw_level_keep s s2 t rest below vs Hnodup'); [|exact HAs|exact HL].
+      intros h N Hh. apply usame_eq. apply (Hoth h N). apply Halloc. rewrite Hts. right. exact Hh. }
+    assert (HgenR : forall q s2, tasks s2 = tasks s -> (forall h, h <> t -> get h s <> None -> get h s2 = get h s) ->
+              AWc (mkC (MRun t q) (FCont t old :: FExec i :: FWait r :: vs) s2)).
+    { intros q s2 Ht2 Hoth. destruct (Hgen s2 Ht2 Hoth) as (X & Y). unfold AWc. cbn [c_mode c_frames c_st AWm].
+      exists old, i, r, vs, rest, below. split; [reflexivity|]. split; [rewrite Ht2; exact Hts|]. split; [exact Hlen|]. split; [exact X|split; [exact Hbot|exact Y]]. }
+    assert (HgenC : forall s2, tasks s2 = tasks s -> (forall h, h <> t -> get h s <> None -> get h s2 = get h s) ->
+              AWc (mkC MContRet (FCont t old :: FExec i :: FWait r :: vs) s2)).
+    { intros s2 Ht2 Hoth. destruct (Hgen s2 Ht2 Hoth) as (X & Y). unfold AWc. cbn [c_mode c_frames c_st AWm].
+      exists t, old, i, r, vs, rest, below. split; [reflexivity|]. split; [rewrite Ht2; exact Hts|]. split; [exact Hlen|]. split; [exact X|split; [exact Hbot|exact Y]]. }
+    unfold get_task. rewrite Hg.
+    assert (Hfin : forall o, let s1 := set_task t (mkTask None (tk_last tk) (tk_deps tk) (tk_ctxs tk) (tk_cact tk) (tk_ds tk) (tk_iter tk) (tk_next tk)) s in
+              computed t s1 = false /\ AWc (mkC MContRet (FCont t old :: FExec i :: FWait r :: vs) (complete_task t o s1))).
+    { intros o. cbn zeta.
+      set (tkc := mkTask None (tk_last tk) (tk_deps tk) (tk_ctxs tk) (tk_cact tk) (tk_ds tk) (tk_iter tk) (tk_next tk)).
+      pose proof (set_task_upd s t None tk tkc Hg) as U1. pose proof U1 as (G1 & _).
+      split; [unfold computed; rewrite G1; reflexivity|].
+      rewrite (complete_task_closed t o _ None tkc G1 eq_refl).
+      set (ent := mkFut (Some o) (KTask (mkTask None YNone [] (tk_ctxs tkc) (tk_cact tkc) (tk_ds tkc) (tk_iter tkc) (tk_next tkc)))).
+      assert (U2 : upd_entry s (emit (EvDone t o) (put t ent (set_task t tkc s))) t ent).
+      { eapply upd_entry_trans; [exact U1|]. eapply upd_entry_view; [apply upd_entry_put|reflexivity|reflexivity|reflexivity]. }
+      apply HgenC; [apply tasks_of_regs; rewrite regs_emit, regs_put, regs_set_task; reflexivity|].
+      intros h N _. destruct U2 as (_ & B & _). apply B. exact N. }
+    inversion Htree as [v Ev|v Ev|e Ev|y k Hl Hk Ev|c k Hc Hk Ev|c k Hc Hk Ev|q k Hq Hk Ev]; subst p.
+    - destruct (Hfin (Ok v)) as (Hnc & A). cbn zeta in *. rewrite Hnc. exact A.
+    - destruct (Hfin (Ok v)) as (Hnc & A). cbn zeta in *. rewrite Hnc. exact A.
+    - destruct (Hfin (Err e)) as (Hnc & A). cbn zeta in *. unfold accept_error. rewrite Hnc. exact A.
+    - destruct (SI_inst _ t y spec s HS Hl) as (spec1 & (Ext & HS1 & Old & Tn) & Uw & A & Nw).
+      pose proof (regs_inst t y s) as Hri.
+      destruct (inst t y s) as [y' s1]. cbn [fst snd] in *.
+      assert (Hg1 : get t s1 = Some (mkFut None (KTask tk))) by (rewrite Old; [exact Hg|rewrite Hg; discriminate]).
+      rewrite Hg1.
+      set (tk2 := mkTask (Some k) y' (tk_deps tk ++ futs (extract y')) (tk_ctxs tk) (tk_cact tk) (tk_ds tk) (tk_iter tk) (tk_next tk)).
+      pose proof (set_task_upd s1 t None tk tk2 Hg1) as U2.
+      assert (Ht2 : tasks (set_task t tk2 s1) = tasks s).
+      { transitivity (tasks s1); [apply tasks_of_regs; apply regs_set_task|apply tasks_of_regs; exact Hri]. }
+      assert (Ho2 : forall h, h <> t -> get h s <> None -> get h (set_task t tk2 s1) = get h s).
+      { intros h N Hh. destruct U2 as (_ & B & _). rewrite B by exact N. apply Old. exact Hh. }
+      destruct (Hgen _ Ht2 Ho2) as (X & Y).
+      destruct (futs (extract y')); unfold AWc; cbn [c_mode c_frames c_st AWm].
+      + exists old, i, r, vs, rest, below. split; [reflexivity|]. split; [rewrite Ht2; exact Hts|]. split; [exact Hlen|]. split; [exact X|split; [exact Hbot|exact Y]].
+      + exists t, old, i, r, vs, rest, below. split; [reflexivity|]. split; [rewrite Ht2; exact Hts|]. split; [exact Hlen|]. split; [exact X|split; [exact Hbot|exact Y]].
+    - unfold enter_ctx, get_task. rewrite Hg.
+      set (tk1 := tk_with_ctxs tk (tk_ctxs tk ++ [c]) (tk_cact tk)).
+      pose proof (set_task_upd s t None tk tk1 Hg) as U1.
+      assert (V : forall s2, heap s2 = heap (set_task t tk1 s) -> tasks s2 = tasks (set_task t tk1 s) ->
+                AWc (mkC (MRun t k) (FCont t old :: FExec i :: FWait r :: vs) s2)).
+      { intros s2 E1 E2. apply HgenR; [rewrite E2; apply tasks_of_regs; apply regs_set_task|].
+        intros h N _. unfold get. rewrite E1. destruct U1 as (_ & B & _). apply B. exact N. }
+      destruct c as [cid f|cid|cid var v]; apply V; reflexivity.
+    - rewrite (exit_ctx_active t c s None tk Hg Hcact).
+      set (tk1 := tk_with_ctxs tk (remove_ctx c (tk_ctxs tk)) (tk_cact tk)).
+      pose proof (set_task_upd s t None tk tk1 Hg) as U1.
+      assert (V : forall s2, heap s2 = heap (set_task t tk1 s) -> tasks s2 = tasks (set_task t tk1 s) ->
+                AWc (mkC (MRun t k) (FCont t old :: FExec i :: FWait r :: vs) s2)).
+      { intros s2 E1 E2. apply HgenR; [rewrite E2; apply tasks_of_regs; apply regs_set_task|].
+        intros h N _. unfold get. rewrite E1. destruct U1 as (_ & B & _). apply B. exact N. }
+      unfold pause_plain. destruct c as [cid f|cid|cid var v]; apply V; reflexivity.
+    - pose proof (SI_create spec _ t (FTask q) s HS (sf_task q Hq)) as HCr. cbn zeta in HCr.
+      pose proof (tasks_of_regs _ _ (regs_create t (FTask q) s)) as Ets.
+      destruct (create t (FTask q) s) as [h s1]. cbn [fst snd fexpr_outs] in *.
+      destruct HCr as (Hfresh & _ & _ & Hoth & _).
+      apply HgenR; [exact Ets|]. intros x N Hx. apply Hoth. intros ->. contradiction.
+  Qed.
+
+  Theorem aws_step spec S c : is_unwind (c_mode c) = false -> DLS res spec S c -> AWc c -> AWc (step P c).
+  Proof.
+    destruct c as [m fr s]. destruct m; cbn [c_mode is_unwind]; intros Hu HD HA; try discriminate.
+    - apply (aws_MValue spec S); assumption.
+    - apply aws_MWaitHead; assumption.
+    - apply (aws_MAfterExec spec S); assumption.
+    - apply (aws_MExecLoop spec S); assumption.
+    - apply (aws_MResume spec S); assumption.
+    - apply (aws_MRun spec S); assumption.
+    - apply (aws_MContRet spec S); assumption.
+    - apply aws_MDeliver; assumption.
+    - exact HA.
+    - exact HA.
+  Qed.
+
+  Theorem aws_run n : forall spec S c, DLS res spec S c -> AWc c -> no_unwind P n c -> AWc (run P n c).
+  Proof.
+    induction n as [|n IH]; intros spec S c HD HA Hn; [exact HA|].
+    rewrite run_S. destruct (is_final (c_mode c)) eqn:Hf; [exact HA|].
+    assert (Hu : is_unwind (c_mode c) = false) by (apply (Hn O); lia).
+    destruct (dls_step P HP res spec S c Hu HD) as (spec1 & S1 & HD1).
+    apply (IH spec1 S1); [exact HD1|apply (aws_step spec S); assumption|].
+    intros k Hk. specialize (Hn (Datatypes.S k) ltac:(lia)). rewrite run_S, Hf in Hn. exact Hn.
+  Qed.
+End AwaitingS.
+
+(* inside one segment: an active entry below the top reaches the top; so does the bottom of the segment *)
+Lemma seg_reach s t rest u tku :
+  AWs (with_tasks s (t :: rest)) -> In u rest -> get u s = Some (mkFut None (KTask tku)) -> tk_cact tku = true ->
+  reach (with_tasks s (t :: rest)) u t.
+Proof.
+  intros [Hpar Hag] Hu Hg Hc. apply in_split in Hu as (r1 & r2 & ->).
+  assert (E : tasks (with_tasks s (t :: r1 ++ u :: r2)) = (t :: r1) ++ u :: r2) by reflexivity.
+  assert (Hds : tk_ds tku = true) by (apply (Hag (t :: r1) u r2 tku E); [discriminate|exact Hg|exact Hc]).
+  apply (par_reach _ Hpar (length r1) (t :: r1) u r2 tku E Hg Hds [] t r1 eq_refl (le_n _)).
+Qed.
+
+Lemma seg_bottom_reach s t rest r :
+  AWs (with_tasks s (t :: rest)) -> bottom r (t :: rest) -> reach (with_tasks s (t :: rest)) r t.
+Proof.
+  intros [Hpar Hag] (above & E). destruct above as [|a above']; cbn in E; inversion E as [[E1 E2]]; [apply reach_refl|].
+  subst a rest. clear E.
+  assert (Hy : exists a'' y, t :: above' = a'' ++ [y]).
+  { destruct (@exists_last _ (t :: above') ltac:(discriminate)) as (a'' & y & Ey). exists a'', y. exact Ey. }
+  destruct Hy as (a'' & y & Ey).
+  assert (Et : tasks (with_tasks s (t :: above' ++ [r])) = a'' ++ y :: [r]).
+  { cbn [tasks with_tasks]. change (t :: above' ++ [r]) with ((t :: above') ++ [r]). rewrite Ey, <- app_assoc. reflexivity. }
+  destruct (Hpar _ _ _ Et ltac:(discriminate)) as (b1 & w & b2 & tk & Eb & Hw & Hdw & _ & _).
+  assert (w = r) as ->.
+  { destruct b1 as [|v b1']; cbn in Eb; inversion Eb; [reflexivity|]. destruct b1'; discriminate. }
+  assert (E : tasks (with_tasks s (t :: above' ++ [r])) = (t :: above') ++ r :: []) by reflexivity.
+  apply (par_reach _ Hpar (length above') (t :: above') r [] tk E Hw Hdw [] t above' eq_refl (le_n _)).
+Qed.
+
+Lemma awl_awaits s fr0 : forall ts vs, awl s ts vs -> forall r pre, fr0 = pre ++ FWait r :: vs ->
+  forall u tku, In u ts -> get u s = Some (mkFut None (KTask tku)) -> tk_cact tku = true -> awaits s fr0 u r.
+Proof.
+  intros ts vs H. induction H as [|t k old i r' vs rest below Hlen HAs Hb HL IH]; intros r pre E u tku Hu Hg Hc; [destruct Hu|].
+  assert (Htr : awaits s fr0 t r) by (apply (aws_call s fr0 t t k r pre _ (aws_refl _ _ _) E)).
+  apply in_app_or in Hu as [[<-|Hu]|Hu].
+  - exact Htr.
+  - apply (awaits_trans _ _ _ t); [|exact Htr].
+    apply (reach_awaits s (with_tasks s (t :: rest))); [reflexivity|]. apply (seg_reach s t rest u tku); assumption.
+  - apply (awaits_trans _ _ _ r').
+    + apply (IH r' (pre ++ [FWait r; FValue t k; FCont t old; FExec i]) ltac:(rewrite E, <- app_assoc; reflexivity) u tku Hu Hg Hc).
+    + apply (awaits_trans _ _ _ t); [|exact Htr].
+      apply (reach_awaits s (with_tasks s (t :: rest))); [reflexivity|]. apply (seg_bottom_reach s t rest r'); assumption.
+Qed.
+
+Section C07S_awaiting.
+  Variable P : params.
+  Hypothesis HP : pointwise P.
+  Variable p : prog.
+  Hypothesis Hp : stree p.
+
+  Let h := fst (create [] (FTask p) (st0 P)).
+  Let s1 := snd (create [] (FTask p) (st0 P)).
+
+  (* while code of t runs, every task that owns a layer below t's own (an uncompleted task below t on the scheduler's
+     stack whose contexts are active) awaits t: through dependency lists of uncompleted tasks (it yielded them) and
+     through the synchronous calls of the callers that are inside value() *)
+  Theorem layer_owners_await_stree n t q :
+    no_unwind P n (start h s1) -> c_mode (run P n (start h s1)) = MRun t q ->
+    let c := run P n (start h s1) in
+    let s := c_st c in
+    forall rest, tasks s = t :: rest -> forall u cx, In (u, cx) (lower s rest) -> awaits s (c_frames c) u t.
+  Proof.
+    intros Hn Hm. cbn zeta.
+    assert (H0 : no_unwind P 0 (start h s1)) by (intros k Hk; assert (k = O) as -> by lia; reflexivity).
+    destruct (dls_reach P HP p Hp 0 H0) as (spec & S & HD). fold h s1 in HD. cbn [run] in HD.
+    assert (HA0 : AWc (start h s1)) by (apply awl_top).
+    pose proof (aws_run P HP (evals p) n spec S (start h s1) HD HA0 Hn) as HA.
+    destruct (run P n (start h s1)) as [m fr s]. cbn [c_mode c_frames c_st] in *. subst m.
+    unfold AWc in HA. cbn [c_mode c_frames c_st AWm] in HA.
+    destruct HA as (old & i & r & vs & rest0 & below & -> & Hts & Hlen & HAs & Hbot & HL).
+    intros rest Hts' u cx Hin. rewrite Hts in Hts'. inversion Hts' as [E]. subst rest.
+    destruct (lower_in s _ u cx Hin) as (Hu & tku & Hgu & Hcu & _).
+    apply in_app_or in Hu as [Hu|Hu].
+    - apply (reach_awaits s (with_tasks s (t :: rest0))); [reflexivity|]. apply (seg_reach s t rest0 u tku); assumption.
+    - apply (awaits_trans _ _ _ r).
+      + apply (awl_awaits s _ below vs HL r [FCont t old; FExec i] eq_refl u tku Hu Hgu Hcu).
+      + apply (reach_awaits s (with_tasks s (t :: rest0))); [reflexivity|]. apply (seg_bottom_reach s t rest0 r); assumption.
+  Qed.
+End C07S_awaiting.
